@@ -237,6 +237,11 @@ func runC05(c *Ctx) {
 	for _, t := range sl.skipTerms {
 		skipSet[t] = true
 	}
+	if !sl.ok {
+		// which terminals are skipped, reported as errors or returned is not known: nothing that depends on it is decided
+		c.Undecided("R5.1", "outcome of every accepting state against the documented token table", fn.Pos(), "the scan loop's treatment of the evaluated token (skip / error / token) was not understood, so the labels of the coded machine are unknown")
+		return
+	}
 	c.Check("R5.4", "an error token becomes an error", fn.Pos(), len(sl.errTerms) >= 1, "no terminal is turned into an error by the scan loop")
 	if s.defLeaf == nil || !s.defLeaf.termOK || !errSet[s.defLeaf.terminal] {
 		c.Fail("R5.4", "non-accepting states evaluate to the error token", s.evalFn.Pos(), "the default leaf of the evaluation method does not produce a terminal that the scan loop turns into an error")
